@@ -391,7 +391,15 @@ func main() {
 				"-gsim.tier="+*tier, "-gsim.out="+outDir, "-gsim.sites="+b.sites, fmt.Sprintf("-gsim.worker=%d", k),
 				fmt.Sprintf("-gsim.budget=%g", cfg.CapS))
 			c.Env = append(env(), "GOMAXPROCS=2")
+			// watchdog: a worker that outlives the wall cap by far is stuck (for instance the tree under
+			// test blocks on a sync.Mutex, which synctest cannot see as quiescence): tool trouble, never a verdict
+			timer := time.AfterFunc(time.Duration((cfg.CapS*2+300)*float64(time.Second)), func() {
+				if c.Process != nil {
+					c.Process.Kill()
+				}
+			})
 			out, err := c.CombinedOutput()
+			timer.Stop()
 			if err != nil {
 				errs[k] = fmt.Sprintf("worker %d: %v\n%s", k, err, tail(string(out), 3000))
 			}
